@@ -565,8 +565,14 @@ def repcast_rule(chk, db):
                 continue
             ty = (x.get("ty") or "").strip()
             inner = [x.get("e")] if x.get("k") == "cast" else list(x.get("a") or [])
-            if not any(y.get("k") == "call" and astx.callee(y)[0] == "count" and not y["a"]
-                       for i in inner if i is not None for y in astx.walk_expr(i)):
+            rep_params = set(p0["n"] for p0 in f["params"] if re.sub(r"\b(const|typename)\b|[&\s]", "", p0.get("ty") or "") in ("rep", "Rep", "duration::rep"))
+
+            def is_ticks(y):
+                # x.count(), the stored tick count itself, or a parameter declared with the representation type
+                return (y.get("k") == "call" and astx.callee(y)[0] == "count" and not y["a"]) or \
+                    (y.get("k") == "mem" and y.get("dk") == "field" and y.get("n") in ("_rep", "_count", "_ticks", "_d")) or \
+                    (y.get("k") == "ref" and y.get("d") == "param" and y.get("n") in rep_params)
+            if not any(is_ticks(y) for i in inner if i is not None for y in astx.walk_expr(i)):
                 continue
             n += 1
             label = "%s :: `%s`" % (astx.sig(f), astx.show(x, 60))
